@@ -21,6 +21,8 @@ structure D5S (α : Type) (n : Nat) where
   k6 : Vec α n
   /-- `k4` after "K4 scaled for error estimate" -/
   ek4 : Vec α n
+  /-- the stage-6 state, kept for the stiffness detection -/
+  ysti : Vec α n
 
 def dopri5Kernel (atol rtol : Vec α n) : HKernel α n where
   S := D5S α n
@@ -28,12 +30,11 @@ def dopri5Kernel (atol rtol : Vec α n) : HKernel α n where
   trial f x h last xend y k1 :=
     let o := Gen.Dopri5.stages (f := f) (y := y) (h := h) (k1 := k1) (x := x) (last := last) (xend := xend)
     let e := Gen.Dopri5.errk4 (k1 := k1) (k3 := o.k3) (k4 := o.k4) (k5 := o.k5) (k6 := o.k6) (k2 := o.k2) (h := h)
-    (⟨o.y1, o.k2, o.k3, o.k4, o.k5, o.k6, e.k4⟩, o.calls, 6)
+    (⟨o.y1, o.k2, o.k3, o.k4, o.k5, o.k6, e.k4, o.ysti⟩, o.calls, 6)
   err S y _h := finiteGuard S.y1 (Gen.Dopri5.errnorm (atol := atol) (rtol := rtol) (y := y) (y1 := S.y1) (k4 := S.ek4))
   acceptA _ S _ _ _ _ := (S, #[], 0)
-  hlamb S h y k1 old :=
-    (Gen.Dopri5.stiff (k2 := S.k2) (k6 := S.k6) (y := y) (h := h) (k1 := k1) (k3 := S.k3) (k4 := S.ek4) (k5 := S.k5)
-      (y1 := S.y1) (hlamb := old)).hlamb
+  hlamb S h _ _ old :=
+    (Gen.Dopri5.stiff (k2 := S.k2) (k6 := S.k6) (y1 := S.y1) (ysti := S.ysti) (h := h) (hlamb := old)).hlamb
   acceptB _ dense S _ h y k1 :=
     let cont : Array (Vec α n) :=
       if dense then
